@@ -957,6 +957,26 @@ void mon_connect(const Run& run, const Ix&, Verdicts& v, vu::Result& res) {
                 v.add("C11", "C11:trigger-never-resolved", op_str(o) + ": a write on the open stream was neither performed nor told to try again within " + std::to_string((final_t - o.t_init) / SEC) + " s although the broker was reachable");
         }
     }
+    // C11 (d): a failure report that arrives late (the abort of an operation that was still pending on a transport which has been
+    // replaced meanwhile) is not a failure of the new transport: at the autoconnect_stream level no established connection is given
+    // up by the client unless something happened to it (a fault, a read timeout, a shutdown / cancel / close by the script)
+    if (run.sc->stream_mode == 1) {
+        for (auto& c : h.conns) {
+            if (!c.established || c.t_closed < 0 || c.closed_by != "client" || c.faulted) continue;
+            bool cause = false;
+            for (auto& e : h.ev) {
+                if (e.seq > c.seq_closed) break;
+                if (e.seq < c.seq_established) continue;
+                if (e.kind == Ev::terminal || e.kind == Ev::shutdown_begin) cause = true;                      // the script cancelled / shut down
+                if (e.kind == Ev::fault && (e.a == c.id || e.a < 0)) cause = true;                             // something happened to it
+                if (e.a == c.id && (e.kind == Ev::read_end || e.kind == Ev::write_end) && e.s.find("ok") == std::string::npos && e.s.find("operation_aborted") == std::string::npos) cause = true;   // an operation on it failed
+                if (e.a == c.id && e.kind == Ev::read_end && e.s.find("(cancel)") != std::string::npos) cause = true;   // read timeout
+                if (e.kind == Ev::signal) cause = true;                                                        // the script cancelled one of the operations
+            }
+            res.count("stream_connections_closed_by_client");
+            if (!cause) v.add("C11", "C11:healthy-connection-given-up", "connection " + std::to_string(c.id) + " (established at " + std::to_string(c.t_established / 1e9) + " s) was given up by the client at " + std::to_string(c.t_closed / 1e9) + " s although nothing had happened to it");
+        }
+    }
     // C11 (b): single flight
     for (auto& e : h.ev) if (e.kind == Ev::note && e.s.rfind("overlap:", 0) == 0) v.add("C11", "C11:overlapping-attempts", e.s + " (t=" + std::to_string(e.t / 1e9) + "s)");
     if (run.w->max_resolving > 1) v.add("C11", "C11:overlapping-resolutions", "two name resolutions in flight at once");
